@@ -133,6 +133,12 @@ func checkC14Parse(raw json.RawMessage) (ev.Result, error) {
 			}
 		} else {
 			res.Classes = append(res.Classes, "parse:unknown-name")
+			if err == nil && uint32(a) == 0x7fc00000 && isASCII(c.Input) && asciiLower(a.String()) == low {
+				// SECCOMP_RET_USER_NOTIF is the one kernel action the pinned tree has no name for. A tree that gives it a
+				// name of its own (the name prints back as itself and denotes that constant, not one of the seven) has
+				// extended the documented set; it has not mapped an unknown name onto a documented action.
+				return ev.Result{Classes: []string{"parse:new-kernel-action-no-claim"}}, nil
+			}
 			if err == nil {
 				return res, fmt.Errorf("Action.Unpack(%q) accepts an undocumented name and yields %#x (%s)", c.Input, uint32(a), a)
 			}
